@@ -85,13 +85,13 @@ fn run_child(dir: &Path, crash_at: Option<u64>, log: Option<&Path>) -> Option<i3
 
 fn wait_startup(node: &Node) {
     let t0 = Instant::now();
-    while node.chain().is_verifying_unverified_blocks_on_startup() && t0.elapsed() < Duration::from_secs(20) {
+    while node.chain().is_verifying_unverified_blocks_on_startup() && t0.elapsed() < Duration::from_secs(180) {
         std::thread::sleep(Duration::from_millis(2));
     }
     // let the queued re-verifications drain: tip stable for a while
     let mut last = node.tip().hash();
     let mut stable = Instant::now();
-    while stable.elapsed() < Duration::from_millis(60) && t0.elapsed() < Duration::from_secs(20) {
+    while stable.elapsed() < Duration::from_millis(150) && t0.elapsed() < Duration::from_secs(240) {
         std::thread::sleep(Duration::from_millis(5));
         let now = node.tip().hash();
         if now != last { last = now; stable = Instant::now(); }
@@ -238,7 +238,7 @@ pub fn run(seed: u64, thorough: bool, out_dir: &Path, scratch: &Path) -> Out {
                 {
                     let pending = |n: &Node| pre.0.values().flatten().filter(|(_, id)| n.shared.store().get_block_ext(&blocks[*id as usize - 1].hash()).is_none()).count();
                     let (mut last, mut since, t0) = (pending(&node), Instant::now(), Instant::now());
-                    while since.elapsed() < Duration::from_millis(150) && t0.elapsed() < Duration::from_secs(10) {
+                    while since.elapsed() < Duration::from_millis(400) && t0.elapsed() < Duration::from_secs(120) {
                         std::thread::sleep(Duration::from_millis(10));
                         let now = pending(&node);
                         if now != last { last = now; since = Instant::now(); }
